@@ -439,6 +439,7 @@ func c17Gen(g *G) {
 	// two clients in one process, then the decisions of tryToProcessErr through the whole request path
 	// (MakeRequest against scripted peers)
 	c17TwoGen(g, code)
+	c17HistGen(g, code)
 	c17MigGen(g, code)
 	c17CallGen(g, code)
 	rows := append([]c17Row{}, c17F.Rows...)
@@ -722,7 +723,7 @@ func c17Judge(op []string, out string) string {
 	if len(op) < 2 {
 		return ""
 	}
-	if (op[0] == "c17.req" && len(op) == 4) || ((op[0] == "c17.req2" || op[0] == "c17.two" || op[0] == "c17.call") && len(op) == 6) ||
+	if (op[0] == "c17.req" && len(op) == 4) || (op[0] == "c17.hist" && len(op) == 5) || ((op[0] == "c17.req2" || op[0] == "c17.two" || op[0] == "c17.call") && len(op) == 6) ||
 		(op[0] == "c17.home" && len(op) == 3) {
 		return c17MigJudge(op, out)
 	}
